@@ -69,10 +69,13 @@ thread_local! {
     static WORKER_ID: Cell<usize> = const { Cell::new(usize::MAX) };
 }
 
-pub(crate) fn register_worker() -> usize {
-    let id = NEXT_WORKER.fetch_add(1, Ordering::SeqCst);
+/// Worker ids follow spawn order (the order in which `Drop` joins them).
+pub(crate) fn alloc_worker_id() -> usize {
+    NEXT_WORKER.fetch_add(1, Ordering::SeqCst)
+}
+
+pub(crate) fn set_current_worker(id: usize) {
     WORKER_ID.with(|c| c.set(id));
-    id
 }
 
 /// The pool worker the calling thread is (usize::MAX when it is not a pool worker).
